@@ -337,6 +337,158 @@ func orderCensus(fd *ast.FuncDecl) []string {
 	return res
 }
 
+
+// ---------------------------------------------------------------- structured bodies (path model)
+
+// callsIn lists the calls inside an expression in evaluation order (arguments before the call itself)
+func callsIn(n ast.Node) []string {
+	var res []string
+	var walk func(n ast.Node)
+	walk = func(n ast.Node) {
+		if n == nil {
+			return
+		}
+		switch x := n.(type) {
+		case *ast.FuncLit:
+			return
+		case *ast.CallExpr:
+			walk(x.Fun)
+			for _, a := range x.Args {
+				walk(a)
+			}
+			res = append(res, "SCallF "+coqString(exprString(x.Fun)))
+			return
+		}
+		ast.Inspect(n, func(m ast.Node) bool {
+			if m == n || m == nil {
+				return true
+			}
+			walk(m)
+			return false
+		})
+	}
+	walk(n)
+	return res
+}
+
+func stmList(l []ast.Stmt) string {
+	var out []string
+	for _, st := range l {
+		out = append(out, stmOf(st)...)
+	}
+	return "[" + strings.Join(out, "; ") + "]"
+}
+
+func stmOf(st ast.Stmt) []string {
+	switch x := st.(type) {
+	case nil:
+		return nil
+	case *ast.BlockStmt:
+		var out []string
+		for _, s := range x.List {
+			out = append(out, stmOf(s)...)
+		}
+		return out
+	case *ast.ExprStmt:
+		return callsIn(x.X)
+	case *ast.AssignStmt:
+		var out []string
+		for _, e := range x.Rhs {
+			out = append(out, callsIn(e)...)
+		}
+		return out
+	case *ast.DeclStmt:
+		return callsIn(x)
+	case *ast.SendStmt:
+		return callsIn(x.Value)
+	case *ast.IncDecStmt:
+		return nil
+	case *ast.GoStmt:
+		return []string{"SGo " + coqString(exprString(x.Call.Fun))}
+	case *ast.DeferStmt:
+		if fl, ok := x.Call.Fun.(*ast.FuncLit); ok {
+			return []string{"SDeferBlock " + stmList(fl.Body.List)}
+		}
+		var out []string
+		for _, a := range x.Call.Args {
+			out = append(out, callsIn(a)...)
+		}
+		return append(out, "SDeferF "+coqString(exprString(x.Call.Fun)))
+	case *ast.ReturnStmt:
+		var out []string
+		for _, e := range x.Results {
+			out = append(out, callsIn(e)...)
+		}
+		return append(out, "SReturn")
+	case *ast.IfStmt:
+		out := stmOf(x.Init)
+		out = append(out, callsIn(x.Cond)...)
+		els := "[]"
+		if x.Else != nil {
+			els = "[" + strings.Join(stmOf(x.Else), "; ") + "]"
+		}
+		return append(out, "SIf "+coqString(exprString(x.Cond))+" "+stmList(x.Body.List)+" "+els)
+	case *ast.SelectStmt:
+		var arms []string
+		for _, c := range x.Body.List {
+			cc := c.(*ast.CommClause)
+			name := "default"
+			var pre []string
+			if cc.Comm != nil {
+				name = commArm(cc)
+				pre = stmOf(cc.Comm)
+			}
+			body := append(pre, stmOf(&ast.BlockStmt{List: cc.Body})...)
+			arms = append(arms, "("+coqString(name)+", ["+strings.Join(body, "; ")+"])")
+		}
+		return []string{"SSelect [" + strings.Join(arms, "; ") + "]"}
+	case *ast.SwitchStmt:
+		out := stmOf(x.Init)
+		if x.Tag != nil {
+			out = append(out, callsIn(x.Tag)...)
+		}
+		return append(out, switchArms(x.Body))
+	case *ast.TypeSwitchStmt:
+		out := stmOf(x.Init)
+		return append(out, switchArms(x.Body))
+	case *ast.ForStmt:
+		out := stmOf(x.Init)
+		if x.Cond != nil {
+			out = append(out, callsIn(x.Cond)...)
+		}
+		return append(out, "SLoop "+stmList(x.Body.List))
+	case *ast.RangeStmt:
+		out := callsIn(x.X)
+		return append(out, "SLoop "+stmList(x.Body.List))
+	case *ast.LabeledStmt:
+		return stmOf(x.Stmt)
+	}
+	return nil
+}
+
+func switchArms(b *ast.BlockStmt) string {
+	var arms []string
+	hasDefault := false
+	for _, c := range b.List {
+		cc := c.(*ast.CaseClause)
+		name := "default"
+		if cc.List == nil {
+			hasDefault = true
+		} else {
+			var es []string
+			for _, e := range cc.List {
+				es = append(es, exprString(e))
+			}
+			name = strings.Join(es, ", ")
+		}
+		arms = append(arms, "("+coqString("case "+name)+", "+stmList(cc.Body)+")")
+	}
+	if !hasDefault {
+		arms = append(arms, "("+coqString("case <none>")+", [])")
+	}
+	return "SSelect [" + strings.Join(arms, "; ") + "]"
+}
+
 // ---------------------------------------------------------------- type switches
 
 func typeSwitchCases(fn string) ([][]string, bool) {
@@ -810,6 +962,22 @@ func main() {
 		fmt.Fprintf(&out, "Definition return_census : list (string * list string) := [\n%s\n].\n", strings.Join(rets, ";\n"))
 		fmt.Fprintf(&out, "Definition assign_census : list (string * list string) := [\n%s\n].\n", strings.Join(asg, ";\n"))
 		fmt.Fprintf(&out, "Definition go_guards : list (string * list (string * list string)) := [\n%s\n].\n", strings.Join(gos, ";\n"))
+	}
+	// structured bodies of the functions whose every path matters (accounting, pending-call table)
+	{
+		bodyFns := []string{"dispatch.Call", "dispatch.Notify", "dispatch.handleCancel", "callRequest.Reply",
+			"callCompressedRequest.Reply", "callRequest.Serve", "callCompressedRequest.Serve", "notifyRequest.Serve",
+			"Connection.connect", "Connection.waitForConnection", "transport.closeWithErr"}
+		var items []string
+		for _, fn := range bodyFns {
+			fd, ok := fm[fn]
+			if !ok {
+				missing = append(missing, fn)
+				continue
+			}
+			items = append(items, "  ("+coqString(fn)+", "+stmList(fd.Body.List)+")")
+		}
+		fmt.Fprintf(&out, "Definition body_census : list (string * list stm) := [\n%s\n].\n", strings.Join(items, ";\n"))
 	}
 	fmt.Fprintln(&out)
 	var ms []string
